@@ -101,6 +101,7 @@ structure M where
   timers : List (Nat × Rat)         -- live loop timers that will call `_run`: (handle id, deadline)
   handle : Option Nat               -- `self._timeout`
   inflight : List Nat               -- invocation numbers whose awaitable is pending
+  busy : Bool                       -- `self._in_flight`: an invocation has started and not finished
   nextH : Nat
   nextInv : Nat
   kinds : List Kind                 -- behaviour of the next invocations (exhausted ⇒ `sync`)
@@ -108,7 +109,7 @@ structure M where
 
 def init (callbackTime : Rat) (now : Rat) (kinds : List Kind) : M :=
   { now, running := false, pc := ⟨callbackTime, 0, now⟩, timers := [], handle := none, inflight := [],
-    nextH := 0, nextInv := 0, kinds }
+    busy := false, nextH := 0, nextInv := 0, kinds }
 
 /-- `_schedule_next` -/
 def scheduleNext (m : M) : M × List Ev :=
@@ -125,9 +126,10 @@ def earliest : List (Nat × Rat) → Option (Nat × Rat)
     | none => some t
     | some u => if u.2 < t.2 then some u else some t
 
-/-- `_run` up to the first suspension point -/
+/-- `_run` up to the first suspension point.  A synchronous callback sets and clears `_in_flight` within the step; for
+a coroutine callback it stays set until the `complete` op. -/
 def runCb (m : M) : M × List Ev :=
-  if !m.running then (m, [])
+  if !m.running || m.busy then (m, [])
   else
     let inv := m.nextInv
     let (k, ks) := match m.kinds with
@@ -141,19 +143,29 @@ def runCb (m : M) : M × List Ev :=
     | .raise =>
       let (m', evs) := scheduleNext m
       (m', [.started inv m.now, .finished inv m.now, .logged inv] ++ evs)
-    | .coro => ({ m with inflight := m.inflight ++ [inv] }, [.started inv m.now])
+    | .coro => ({ m with inflight := m.inflight ++ [inv], busy := true }, [.started inv m.now])
+
+/-- `start()`: (re)start the schedule at the current time; a timeout that is still pending is replaced, and while an
+invocation is in flight nothing is armed (that invocation schedules the next run when it finishes) -/
+def startM (m : M) : M × List Ev :=
+  let m := { m with running := true, pc := { m.pc with next := m.now } }
+  let m := match m.handle with
+    | some h => { m with timers := m.timers.filter (fun t => t.1 != h), handle := none }
+    | none => m
+  if m.busy then (m, []) else scheduleNext m
+
+/-- `stop()` -/
+def stopM (m : M) : M × List Ev :=
+  let m := { m with running := false }
+  match m.handle with
+  | some h => ({ m with timers := m.timers.filter (fun t => t.1 != h), handle := none }, [])
+  | none => (m, [])
 
 /-- `start()` / `stop()` / a blocking pause, called from a foreign callback: the same code as the ops `start`, `stop`,
 `sleep` of `step` below (`actStep_eq`) -/
 def actStep (m : M) : Act → M × List Ev
-  | .start =>
-    let m := { m with running := true, pc := { m.pc with next := m.now } }
-    scheduleNext m
-  | .stop =>
-    let m := { m with running := false }
-    match m.handle with
-    | some h => ({ m with timers := m.timers.filter (fun t => t.1 != h), handle := none }, [])
-    | none => (m, [])
+  | .start => startM m
+  | .stop => stopM m
   | .block d => ({ m with now := m.now + d }, [])
 
 def actsRun (m : M) : List Act → M × List Ev
@@ -187,14 +199,8 @@ def iterBody (m : M) (tid : Nat) (before : Bool) (acts : List Act) : M × List E
     (r2.1, r.2 ++ r2.2)
 
 def step (m : M) : Op → M × List Ev
-  | .start =>
-    let m := { m with running := true, pc := { m.pc with next := m.now } }
-    scheduleNext m
-  | .stop =>
-    let m := { m with running := false }
-    match m.handle with
-    | some h => ({ m with timers := m.timers.filter (fun t => t.1 != h), handle := none }, [])
-    | none => (m, [])
+  | .start => startM m
+  | .stop => stopM m
   | .sleep d => ({ m with now := m.now + d }, [])
   | .fire =>
     match earliest m.timers with
@@ -206,7 +212,7 @@ def step (m : M) : Op → M × List Ev
     match m.inflight[idx]? with
     | none => (m, [])
     | some inv =>
-      let m := { m with inflight := m.inflight.eraseIdx idx }
+      let m := { m with inflight := m.inflight.eraseIdx idx, busy := false }
       let (m', evs) := scheduleNext m
       (m', [.finished inv m.now] ++ (if ok then [] else [.logged inv]) ++ evs)
   | .iter late before acts =>
